@@ -8,14 +8,14 @@ CHECKS = {
          'explored edge is replayed on SortableDict, MetadataObject and the column map of a Grid (grid.column, whose validator is the version gate) and long seeded histories (every fourth one starting from the constructor with an initial object, a twin map and the object observed throughout) of the real classes '
          'are validated by Trace_SDict.tla.  Exhaustive within the bound, independent oracle.',
     ref='DESIGN.md 5/C16', technique='TLA+ spec SDict + TLC exhaustive model check; TLC edge generation replayed on the code; TLC trace validation of recorded histories',
-    note='keys/values are small abstract alphabets; negative indices not claimed; TLC, CPython trusted'),
+    note='keys/values are small abstract alphabets; negative indices not claimed; TLC, CPython trusted; extend is all or nothing (a refused item undoes the items before it), an index list.insert() refuses changes nothing (op add_bad_index), constructor / extend take a dict, a SortableDict, a MetadataObject, a mapping proxy, an iterator'),
 
  'C14': dict(
     text='TLC model-checks spec/GridSeq.tla (Grid as a Python list: every mutator with Python index arithmetic, refusal rules, derived grids) '
          'exhaustively; TLC prints every state with its observation table and every edge, each edge is replayed on real Grids (cold and warm id '
          'index) and all observations compared; seeded random histories (two live grids: the parent of a derivation stays parked and the history switches between them) are validated by Trace_GridSeq.tla.',
     ref='DESIGN.md 5/C14', technique='TLA+ spec GridSeq + TLC exhaustive model check; TLC state/edge generation replayed on the code; TLC trace validation',
-    note='rows identified by object identity over a small alphabet; MaxLen 3 in the exhaustive part; slice assignment g[a:b] = rows follows the list model with an atomic refusal (ops setslice / setslice_row); del g[a:b:st] and g[a:b:st] with negative and positive steps (delstep / slicestep)'),
+    note='rows identified by object identity over a small alphabet; MaxLen 3 in the exhaustive part; slice assignment g[a:b] = rows follows the list model with an atomic refusal (ops setslice / setslice_row); del g[a:b:st] and g[a:b:st] with negative and positive steps (delstep / slicestep); copy.copy / copy.deepcopy / pickle round trip as operation copy (CopyFaithful; a deep copy parks the original); a derived grid is as pinned to its version as its parent; every other position is handed over as an index object (__index__)'),
  'C15': dict(
     text='Same GridSeq engine: after every replayed edge and every event of every random history, g[key] and g.get(key) for str/int/Ref keys '
          'must return a row the model\'s scan LookupAllowed(rows, key) permits, else KeyError/default.',
@@ -79,8 +79,8 @@ CHECKS = {
 
  'C10': dict(
     text='spec/Gate.tla: the grid as a gate machine (version, given, stored kinds) with Accepts(version, kind) decided through Version.tla\'s nearest official version; TLC enumerates every declared '
-         'version x every sequence of <=2 stores (35 public entry paths, incl. slice assignment in every argument form, column metadata handed over as a plain dict / a fresh metadata object / adopted from another grid, and stores into deep copies, x 6 kinds) and the constructor paths, checks the gate invariant on the model and prints the expected outcome of each step; every '
-         'case is replayed on a real Grid (outcome, version after, refused store leaves the grid unchanged).  The accept/refuse decision of the deciders (grid, ZINC/JSON writer, ZINC/JSON reader, both scalar readers, nested grids, grids that came out of a reader, writers given a grid edited behind the gate) '
+         'version x every sequence of <=2 stores (42 public entry paths, incl. stores into a slice / a filter result of the grid, slice assignment in every argument form, column metadata handed over as a plain dict / a fresh metadata object / adopted from another grid, and stores into deep copies, x 6 kinds) and the constructor paths, checks the gate invariant on the model and prints the expected outcome of each step; every '
+         'case is replayed on a real Grid (outcome, version after, refused store leaves the grid unchanged; after every step the versions of five slices and two filter results are compared with the version Gate.Derived computes).  The accept/refuse decision of the deciders (grid, ZINC/JSON writer, ZINC/JSON reader, both scalar readers, nested grids, grids that came out of a reader, writers given a grid edited behind the gate) '
          'for 6 versions x 5 kinds is recorded and judged by TLC (Trace_Gate.tla).  GridSeq additionally carries GateInv through arbitrary row-operation histories.',
     ref='DESIGN.md 5/C10', technique='TLA+ spec Gate (+Version.Nearest) enumerated by TLC, every case replayed on the code; TLC-judged decision table of the five deciders',
     note='pre-3.0 = nearest official version < 3.0 (pinned by the repository tests); in-place edits of row dicts already handed to the grid are outside the API (the writers still refuse them); a repeated tag name in ZINC metadata is undefined (not judged)'),
